@@ -282,11 +282,31 @@ def batch_validate(spec: str, cfg: str, cases: list, scratch: str, *, chunk: int
 # -------------------------------------------------------------- known findings
 
 def load_known() -> list:
-    p = os.path.join(VERIF, 'known_findings.json')
-    if not os.path.exists(p):
-        return []
-    with open(p) as f:
-        return json.load(f).get('findings', [])
+    """known_findings.json plus known_findings.d/*.json (one file per property keeps edits apart)."""
+    import glob
+    out = []
+    paths = [os.path.join(VERIF, 'known_findings.json')] + sorted(glob.glob(os.path.join(VERIF, 'known_findings.d', '*.json')))
+    for p in paths:
+        if os.path.exists(p):
+            with open(p) as f:
+                out += json.load(f).get('findings', [])
+    return out
+
+
+class compiler_lock:
+    """Machine-wide lock for anything that starts a real attached Compiler/runtime: the attached server
+    always listens on the default ports (7472/7474), so only one can exist at a time."""
+
+    def __enter__(self):
+        import fcntl
+        self.f = open('/tmp/verif-compiler.lock', 'w')
+        fcntl.flock(self.f, fcntl.LOCK_EX)
+        return self
+
+    def __exit__(self, *a):
+        import fcntl
+        fcntl.flock(self.f, fcntl.LOCK_UN)
+        self.f.close()
 
 
 def match_known(v: Violation, known: list):
